@@ -23,6 +23,16 @@ class Run:
     def __init__(self, prop, tier, seed):
         self.prop, self.tier, self.seed = prop, tier, seed
         self.t0 = time.time()
+        # a killed run cannot remove its scratch directory (they reach gigabytes): drop the ones of this property
+        # that have not been touched for four hours (no tier runs that long)
+        try:
+            td = tempfile.gettempdir()
+            for n in os.listdir(td):
+                p_ = os.path.join(td, n)
+                if n.startswith("verif-%s-" % prop) and os.path.isdir(p_) and time.time() - os.path.getmtime(p_) > 4 * 3600:
+                    shutil.rmtree(p_, ignore_errors=True)
+        except OSError:
+            pass
         self.scratch = tempfile.mkdtemp(prefix="verif-%s-" % prop)
         self.mc_states = 0          # distinct states over all model-checking runs
         self.mc_transitions = 0     # generated states (= transitions taken) over all runs
@@ -35,6 +45,9 @@ class Run:
         self.extra_cov = {}
 
     def cleanup(self):
+        if os.environ.get("VERIF_KEEP_SCRATCH"):
+            log("scratch kept: " + self.scratch)
+            return
         shutil.rmtree(self.scratch, ignore_errors=True)
 
     # ---------------------------------------------------------------- harness
@@ -74,7 +87,8 @@ class Run:
         for src, dst in files:
             shutil.copy(src, os.path.join(d, dst))
         cfg = cfg or (module + ".cfg")
-        cmd = ["java", "-Xss1g", "-XX:+UseParallelGC", "-Xmx" + (heap or "12g")]
+        # TLC unpacks its standard modules into java.io.tmpdir and leaves them there: keep that inside the scratch directory
+        cmd = ["java", "-Xss1g", "-XX:+UseParallelGC", "-Xmx" + (heap or "12g"), "-Djava.io.tmpdir=" + d]
         cmd += ["-cp", TLA_CP, "tlc2.TLC", "-workers", str(workers or 1), "-metadir", os.path.join(d, "meta"),
                 "-config", cfg] + list(extra) + [module + ".tla"]
         t0 = time.time()
